@@ -633,7 +633,7 @@ pub fn binary_determinism(rep: &mut Report, seed: u64) {
 
 pub fn c13(rep: &mut Report, cfg: &Cfg) {
     let mut rng = cfg.rng("C13");
-    let n = cfg.share(cfg.n(24, 400)).max(2);
+    let n = cfg.share(cfg.n(24, 160)).max(2);
     for _ in 0..n {
         let seed = rng.next();
         c13_case(rep, seed, false);
